@@ -1,3 +1,3 @@
 From Coq Require Import ExtrOcamlBasic ExtrOcamlString.
-From Pory Require Import Lexer Ast Parser Emitter Compile Format Sem2 SemTgt Tr Check RenderSim RenderCheck Oracle.
+From Pory Require Import Lexer Ast Parser Emitter Compile Format Sem2 SemTgt Tr Check RenderSim RenderCheck LabelSim C01Final Oracle.
 Extraction "model.ml" compile lex format_text oracle checker validator parse_model read_asm.
